@@ -42,6 +42,8 @@ backslashes are replaced by slashes before it is joined to the root. -/
 structure Cfg where
   contain : ContainKind
   foldSlash : Bool
+  /-- `FileSystemChain.walk_folder_repeat` replaces the prefix's backslashes before `relpath`. -/
+  chainRelSlash : Bool := false
 deriving DecidableEq, Repr
 
 structure RawFS where
@@ -130,7 +132,7 @@ def chainWalkRepeat (k : Cfg) (cwd : Str) (t : Tree) (folder : Str) : List Membe
     let fullFolder := replaceBS (join2 m.pfx folder)
     let fl ← walk k cwd m.fs t fullFolder
     let here := fl.map fun (p, _) =>
-      (replaceBS ((relpath cwd p m.pfx).getD []), openName k cwd m.fs t p)
+      (replaceBS ((relpath cwd p (if k.chainRelSlash then replaceBS m.pfx else m.pfx)).getD []), openName k cwd m.fs t p)
     let rest ← chainWalkRepeat k cwd t folder ms
     pure (here ++ rest)
 
